@@ -1,4 +1,5 @@
 import GV.Driver.Hist
+import GV.Driver.Gtid
 open GV.D
 
 partial def loop (hin hout : IO.FS.Stream) : IO Unit := do
@@ -12,7 +13,7 @@ partial def loop (hin hout : IO.FS.Stream) : IO Unit := do
     match toks with
     | cmd :: rest =>
       let a := parseArgs rest
-      hout.putStrLn (if cmd == "hist" then handleHist a else handle cmd a)
+      hout.putStrLn (if cmd == "hist" then handleHist a else if cmd == "g56" || cmd == "mar" || cmd == "tag" then handleGtid cmd a else handle cmd a)
     | [] => hout.putStrLn ""
   hout.flush
   loop hin hout
